@@ -1,4 +1,4 @@
-\* quick exhaustive check: all 20 valid policies, all 28 commands, 15 answers (MidAnswers) to AUTH and to re-fetches, waits 0/2/3 ticks, 3 commands per connection, HTTP requests (200 k distinct states, ~6 s idle); the full 77-answer domain is covered by NsqdPolicy_r_grants/_r_refetch and by NsqdPolicy_thorough
+\* quick exhaustive check: all 20 valid policies, all 28 commands, 15 answers (MidAnswers) to AUTH and to re-fetches, waits 0/2/3 ticks, 3 commands per connection, HTTP requests (212,438 distinct states, ~6 s idle); the full 77-answer domain is covered by NsqdPolicy_r_grants/_r_refetch and by NsqdPolicy_thorough
 SPECIFICATION Spec
 CONSTANTS
   Policies <- AllPolicies
@@ -10,6 +10,6 @@ CONSTANTS
   MaxNow = 18
   HttpReqs <- AllHttp
 VIEW View
-INVARIANTS TypeOK PropertyLevel RefetchIffExpired CodeStricter NeverOnExpiry
+INVARIANTS TypeOK PropertyLevel PlainHttpServed RefetchIffExpired CodeStricter NeverOnExpiry
 PROPERTIES PolicyFixed
 CHECK_DEADLOCK FALSE
